@@ -275,6 +275,32 @@ def run_l3_limit(ctx):
                             else:
                                 ctx.count("outcome", f"over-limit:{r['data'][:2].decode('latin-1')}")
                             ctx.case(("L3-limit", backend, limit, delta, via, r["data"][:2]), True, sample={"level": "L3", **case, "status": r["data"][:2]})
+        # ---- the documented default limit (100 MiB) on the configuration-file path: a file well above
+        # 10 MiB must be served when the TOML file sets no max_file_size
+        import tomli_w
+        from pathlib import Path
+
+        from nauyaca.server.config import ServerConfig
+
+        root = os.path.join(base, "root-default")
+        os.makedirs(root)
+        n = 11 * (1 << 20) + 7
+        data = (b"0123456789abcdef" * (n // 16 + 1))[:n]
+        with open(os.path.join(root, "big.txt"), "wb") as f:
+            f.write(data)
+        toml = os.path.join(base, "default.toml")
+        with open(toml, "wb") as f:
+            tomli_w.dump({"server": {"host": "127.0.0.1", "port": 1965, "document_root": root}, "rate_limit": {"enabled": False}}, f)
+        for backend in ("stdlib", "pyopenssl") if not ctx.quick() else ("stdlib",):
+            sc = ServerConfig.from_toml(Path(toml))
+            if backend == "pyopenssl":
+                sc.require_client_cert = True
+            with live.LiveServer(root, backend=backend, config=sc, start_kwargs={}) as srv:
+                r = live.fetch_raw(srv.port, b"gemini://localhost/big.txt\r\n", timeout=120)
+            case = {"backend": backend, "len": n, "btype": "str", "source": "static:default-limit-via-toml", "reader": "fast"}
+            compare(ctx, case, b"20 text/plain\r\n" + data, r["data"], r["eof"], "L3")
+            ctx.count("monitor", "at_limit_streams")
+            ctx.case(("L3-default-limit", backend, r["data"][:2]), True, sample={"level": "L3", **case, "status": r["data"][:2]})
     finally:
         shutil.rmtree(base, ignore_errors=True)
 
